@@ -344,6 +344,46 @@ func inspect(c *ev.Case, ctx *lib.Ctx, m *diam.Message, in []byte, class string)
 	return true
 }
 
+// offerQuiet: ReadMessage and the inspections of offer(), checked for panics only (usable from
+// several goroutines at once).
+func offerQuiet(c *ev.Case, ctx *lib.Ctx, in []byte) {
+	var m *diam.Message
+	var err error
+	c.Input("ReadMessage-parallel/"+ctx.Name, in)
+	if p, bad := guard(func() { m, err = diam.ReadMessage(bytes.NewReader(in), ctx.Parser) }); bad {
+		c.Fail(ev.Sig{"op": "panic", "call": "ReadMessage", "site": panicSite(p), "how": "parallel"}, in, nil, "ReadMessage panicked while other goroutines decode with the same dictionary (dict %s): %s", ctx.Name, p)
+		return
+	}
+	c.Event("readmessage_calls", 1)
+	if err != nil || m == nil {
+		return
+	}
+	c.Event("readmessage_ok", 1)
+	for _, o := range []struct {
+		name string
+		f    func()
+	}{
+		{"String", func() { _ = m.String() }},
+		{"PrettyDump", func() { _ = m.PrettyDump() }},
+		{"Serialize", func() { m.Serialize() }},
+		{"Unmarshal-shape1", func() { m.Unmarshal(new(c03Shape1)) }},
+		{"Unmarshal-shape2", func() { m.Unmarshal(new(c03Shape2)) }},
+		{"FindAVP", func() {
+			m.FindAVP("Origin-Host", refdict.AnyVendor)
+			for _, a := range m.AVP {
+				m.FindAVPs(a.Code, refdict.AnyVendor)
+			}
+		}},
+		{"Answer", func() { m.Answer(2001).Serialize() }},
+	} {
+		if p, bad := guard(o.f); bad {
+			c.Fail(ev.Sig{"op": "panic", "call": o.name, "site": panicSite(p), "how": "parallel"}, in, nil, "%s of a decoded message panicked while other goroutines decode with the same dictionary (dict %s): %s", o.name, ctx.Name, p)
+			return
+		}
+	}
+	c.Event("messages_inspected", 1)
+}
+
 func raceDiv(rec *ev.Rec, n, div int) int {
 	if rec.Race() {
 		return n / div
@@ -624,6 +664,38 @@ func TestC03(t *testing.T) {
 		code := grouped[(c.I/len(widths))%len(grouped)]
 		deep := c.I/(len(widths)*len(grouped)) == 1
 		offer(c, def, wideGroup(code, w, deep), fmt.Sprintf("wide/members=%d/deep=%v", w, deep))
+	})
+
+	// 1b. decoding and inspecting from four goroutines that share the dictionaries, as the
+	//     readers and handlers of several connections do: valid messages, messages with a few
+	//     bytes changed, truncated ones, messages full of AVP codes nobody has seen before.
+	//     (No memory bound here: the counters are per process.)
+	rec.Suite("parallel-decodes", raceDiv(rec, rec.N(300, 30000), 3), func(c *ev.Case) {
+		ctx := ctxs[c.I%len(ctxs)]
+		c.Class("parallel-decodes/%s", ctx.Name)
+		inParallel(rec, c, 4, func(gc *ev.Case, g int) {
+			r := gc.R
+			for k := 0; k < 6 && !gc.Failed(); k++ {
+				var in []byte
+				switch r.IntN(4) {
+				case 0:
+					_, in = seedMessage(gc, ctx)
+				case 1:
+					_, w := seedMessage(gc, ctx)
+					in = append([]byte(nil), w...)
+					for f := 1 + r.IntN(3); f > 0 && len(in) > 20; f-- {
+						in[20+r.IntN(len(in)-20)] ^= byte(1 << r.IntN(8))
+					}
+				case 2:
+					_, w := seedMessage(gc, ctx)
+					in = w[:r.IntN(len(w)+1)]
+				default:
+					in = distinctUnknowns(uint32(c.I*64+g*8+k), 30+r.IntN(60))
+				}
+				offerQuiet(gc, ctx, in)
+			}
+		})
+		c.Event("parallel_decode_groups", 1)
 	})
 
 	// 3d. the same code several times, one occurrence unlike the others (the V bit with a vendor id
